@@ -146,3 +146,25 @@ Proof.
   destruct (nsmap_stack t [[]] {| stack := [[]]; start_ns := []; end_ns := false; recorded := [] |} eq_refl eq_refl)
     as (_ & _ & H). exact H.
 Qed.
+
+(* ---- namespaces in scope for an element processed on its own ---- *)
+Lemma scope_chunk_gen : forall a t inh m,
+  scope_at inh t a = Some m -> fold_left ns_update (decls_along t a) (ns_update inh (d_decls t)) = m.
+Proof.
+  induction a as [|i r IH]; intros t inh m H; cbn [scope_at decls_along fold_left] in *.
+  - now injection H.
+  - destruct (nth_error (d_kids t) i) as [c|]; [|discriminate]. cbn [fold_left]. now apply IH.
+Qed.
+
+Theorem scope_chunk_is_scope t a m : scope_at [] t a = Some m -> scope_chunk t a = m.
+Proof. apply scope_chunk_gen. Qed.
+
+(* <r><a xmlns:p="1"><b/></a></r>: b, processed on its own, must see p; with the root's and its own declarations only
+   it does not *)
+Theorem scope_chunk_old_refuted :
+  exists t a p, (exists m, scope_at [] t a = Some m /\ ns_get m p <> None) /\ ns_get (scope_chunk_old t a) p = None.
+Proof.
+  exists (DNode 0 [] [DNode 1 [(7, 1)%N] [DNode 2 [] []]]), [0; 0], 7%N. split.
+  - eexists. split; [reflexivity | cbv; discriminate].
+  - reflexivity.
+Qed.
